@@ -842,10 +842,14 @@ class FnVerifier:
                 except (EngineError, Unsupported):
                     pass
         env = dict(R.base_env)
+        # data globals / ghost variables re-bound since entry (an earlier callee's `modifies`, a `global` assignment, a model): the callee's
+        # requires, and `old(...)` in its ensures, speak about their value AT THIS CALL (found with with_pushd: two calls in a row)
+        cur_globals = {gk: gv for gk, gv in R.globals_.items() if gk not in self.c.params}
+        env.update(cur_globals)
         for dname, dsrc in cc.defs.items():
             env[dname] = const(Closure(self.parse_clause(dsrc), None))
         env.update(f2.env)
-        env["__old_env__"] = dict(f2.env)
+        env["__old_env__"] = dict(cur_globals, **f2.env)
         cname = short_target(cc.target).split("::")[1]
         # ghost functions of the callee are not instantiated at call sites
         for lbl, rq in cc.requires.items():
